@@ -64,3 +64,13 @@ Theorem C14_no_second_cancel_refuted : exists P c fuel w1,
   ip_stop_cancels P = false /\ nstarts w1 < nstarts (snd (on_interrupt P c fuel w1)).
 Proof. exact no_second_cancel_refuted. Qed.
 Print Assumptions C14_no_second_cancel_refuted.
+
+(* "Tasks already executing are allowed to finish": with a single interrupt — whatever the graph, worker count, oracle and
+   the tick it lands on — no worker process is ever terminated: stop(), the only place where workers are terminated, is out
+   of reach unless a second KeyboardInterrupt arrives (and then what it terminates is compared with the real runs by
+   Intr.check_icase). *)
+Require Import LT.Proofs.IntrKeep.
+Theorem C14_single_interrupt_terminates_no_worker : forall c maxw o k1,
+  terminated (snd (run_intr intr_params_src c maxw o k1 None)) = [].
+Proof. exact (single_interrupt_terminates_no_worker intr_params_src). Qed.
+Print Assumptions C14_single_interrupt_terminates_no_worker.
